@@ -73,7 +73,7 @@ def _work(task):
             "sim_seconds": out.sim_seconds,
             "steps": out.steps,
             "inconclusive": out.inconclusive,
-            "violations": [(v.oracle, v.sig, v.narrative) for v in out.violations],
+            "violations": [(v.oracle, v.sig, v.narrative, v.pin) for v in out.violations],
             "wall": time.time() - t0,
         }
         if out.violations or idx < 4:
@@ -234,8 +234,8 @@ def run_check(prop, tier, master_seed, budget_s=None, workers=None, runs=None, v
         if "sample" in r and len(agg["samples"]) < 4:
             agg["samples"].append(r["sample"])
         agg["digests"][r["index"]] = r["digest"]
-        for (oracle, sig, narr) in r["violations"]:
-            agg["violations"].setdefault((oracle, sig), []).append((r["index"], narr, r.get("scenario")))
+        for (oracle, sig, narr, pin) in r["violations"]:
+            agg["violations"].setdefault((oracle, sig), []).append((r["index"], narr, r.get("scenario"), pin))
 
     # ---- determinism spot check: re-run the first scenarios here, in another process position
     det_checked = det_mismatch = 0
@@ -272,8 +272,14 @@ def run_check(prop, tier, master_seed, budget_s=None, workers=None, runs=None, v
             harness_errors.append("violation %s:%s without scenario" % (oracle, sig))
             continue
         items.sort(key=lambda it: len(json.dumps(it[2], default=repr)))
-        idx, narr, scenario = items[0]
+        idx, narr, scenario, pin = items[0]
         target = Violation(oracle, sig, narr)
+        if pin:
+            pinned = dict(scenario)
+            pinned.update(pin)
+            outp, _, _ = execute_one(prop, pinned)
+            if outp is not None and any(prop.same_class(target, v) for v in outp.violations):
+                scenario = pinned
         # must reproduce here (same process twice) before it is believed
         out, ek, et = execute_one(prop, scenario)
         if out is None or not any(prop.same_class(target, v) for v in out.violations):
